@@ -205,7 +205,7 @@ same size (also as the last polls) are included.  Two consequences spelled out: 
 /-- a poll of an empty file — or of a file that does not exist yet, for which
     `read_and_process_content` returns `[]` without calling the reader — returns nothing, moves nothing -/
 theorem poll_empty_file (v : Variant) (pos : Nat) :
-    xyzReader v [] pos = .ok ([], pos) ∧ lmpReader [] pos = .ok ([], pos) := by
+    xyzReader v [] pos = .ok ([], pos) ∧ lmpReader v [] pos = .ok ([], pos) := by
   refine ⟨?_, ?_⟩ <;> simp [xyzReader, lmpReader, lines, xyzRun, lmpRun, finish, xInit, lInit]
 
 /-- **a poll without growth returns nothing** (exact reader): the second of two polls at the same size
@@ -262,9 +262,11 @@ example : (∀ f ∈ [wU, wU], f.WF 1) ∧
 
 /-! ## the LAMMPS reader
 
-`LmpF.WF N`: complete lines; line 4 starts with the integer `N ≥ 1`; three box lines of two or three
-float literals; `N` atom lines `id type x y z vx vy vz id` (nine tokens, first = last, a valid row index,
-float literals, no blank after the trailing id); header texts, blanks, number formats, id order arbitrary.
+`LmpF.WF N`: complete lines; the first line not white space only; line 4 starts with the integer `N ≥ 1`; three
+box lines of two or three float literals; `N` atom lines `id type x y z vx vy vz id` (nine tokens, first = last, a
+valid row index, float literals, ANY blanks/tabs between the trailing id and the newline — what LAMMPS writes);
+header texts, blanks, number formats, id order arbitrary.  `f.slack` = number of bytes behind the trailing id of
+the LAST atom line of the frame (its white space and the newline; 1 = only the newline).
 `lmpStages` states the reader's one-poll lag honestly: a frame is returned as soon as everything but
 its final newline is visible; the poll that then meets this newline only skips it and returns nothing. -/
 
@@ -319,7 +321,7 @@ def wL2 : LmpF :=
 
 theorem wL1_wf : wL1.WF 1 where
   l0 := isLine_of _ ['T'] rfl (by decide)
-  l0ne := by decide
+  l0nb := ⟨'T', by decide, by decide⟩
   l1 := isLine_of _ ['0'] rfl (by decide)
   l2 := isLine_of _ ['N'] rfl (by decide)
   l3 := isLine_of _ ['1'] rfl (by decide)
@@ -334,12 +336,12 @@ theorem wL1_wf : wL1.WF 1 where
     intro a ha
     simp only [wL1, List.mem_cons, List.not_mem_nil, or_false] at ha
     subst ha
-    exact ⟨⟨['1', ' ', '1', ' ', '1', ' ', '2', ' ', '3', ' ', '4', ' ', '5', ' ', '6', ' '], '1', rfl, by decide, by decide⟩,
+    exact ⟨⟨['1', ' ', '1', ' ', '1', ' ', '2', ' ', '3', ' ', '4', ' ', '5', ' ', '6', ' '], '1', [], rfl, by decide, by decide, by simp⟩,
       ⟨by decide, by decide, ⟨1, 0, by decide, by decide⟩, by decide⟩⟩
 
 theorem wL2_wf : wL2.WF 1 where
   l0 := isLine_of _ ['T'] rfl (by decide)
-  l0ne := by decide
+  l0nb := ⟨'T', by decide, by decide⟩
   l1 := isLine_of _ ['5'] rfl (by decide)
   l2 := isLine_of _ ['N'] rfl (by decide)
   l3 := isLine_of _ ['1'] rfl (by decide)
@@ -354,7 +356,7 @@ theorem wL2_wf : wL2.WF 1 where
     intro a ha
     simp only [wL2, List.mem_cons, List.not_mem_nil, or_false] at ha
     subst ha
-    exact ⟨⟨['1', ' ', '1', ' ', '7', ' ', '8', ' ', '9', ' ', '-', '1', ' ', '.', '5', ' ', '6', 'e', '1', ' '], '1', rfl, by decide, by decide⟩,
+    exact ⟨⟨['1', ' ', '1', ' ', '7', ' ', '8', ' ', '9', ' ', '-', '1', ' ', '.', '5', ' ', '6', 'e', '1', ' '], '1', [], rfl, by decide, by decide, by simp⟩,
       ⟨by decide, by decide, ⟨1, 0, by decide, by decide⟩, by decide⟩⟩
 
 def wLmpFrames : List LmpF := [wL1, wL2]
@@ -366,21 +368,39 @@ theorem wLmp_wf : ∀ f ∈ wLmpFrames, f.WF 1 := by
   · exact wL1_wf
   · exact wL2_wf
 
-/-- **Exactness of `lammpstrj_reader` for every byte cut** (this contains NO EXCEPTION): for every
-    well-formed LAMMPS trajectory and *every* list of cut points, the reader object polled on the growing
-    file returns, poll by poll, exactly what `lmpStages` says. -/
-theorem lmp_exact (N : Nat) (hN : 1 ≤ N) (frames : List LmpF) (hwf : ∀ f ∈ frames, f.WF N) (cuts : List Nat) :
-    pollAll lmpReader (lmpContent frames) cuts 0
+/-- **`lmp_exact_trailing_partial`: exactness of `lammpstrj_reader` (the code as it is now), atom lines with any
+    white space behind the trailing id** — for every list of cut points none of which falls strictly inside the
+    white space behind the trailing id of a frame's LAST atom line (`tbFree`: the first incomplete frame misses
+    more than its `slack` bytes, or exactly its final newline): the reader polled on the growing file returns,
+    poll by poll, exactly what `lmpStages` says.  This contains NO EXCEPTION.
+    What is missing for the unguarded statement: a cut inside that white space makes the reader return the frame
+    already then (`lmp_trailing_frame_poll`, all values are there) and the next polls skip the late line end
+    (`lmp_late_line_end_skipped`); the poll-by-poll specification `lmpStages` knows only the one-byte lag and
+    has not been generalised to a per-frame `slack`. -/
+theorem lmp_exact_trailing_partial (N : Nat) (hN : 1 ≤ N) (frames : List LmpF) (hwf : ∀ f ∈ frames, f.WF N)
+    (cuts : List Nat) (hfree : ∀ c ∈ cuts, tbFree frames c) :
+    pollAll (lmpReader .repaired) (lmpContent frames) cuts 0
       = .ok (lmpStages (lmpLens frames) (lmpDecoded N frames) cuts 0 false) := by
-  have := lmp_pollAll N hN frames hwf cuts 0 false (Nat.zero_le _) (by intro h; cases h)
+  have := lmp_pollAll (v := .repaired) N hN frames hwf cuts
+    (fun c hc d hd => tbFree_drop N hN frames hwf c (hfree c hc) d hd) 0 false (Nat.zero_le _) (by intro h; cases h)
   simpa [sumLens, lmpContent, lmpLens, lmpDecoded] using this
+
+/-- **Exactness of `lammpstrj_reader` for every byte cut** (this contains NO EXCEPTION): for every
+    well-formed LAMMPS trajectory whose frames end right behind the trailing id of their last atom line
+    (`slack = 1`; all other atom lines may carry any white space there) and *every* list of cut points, the
+    reader object polled on the growing file returns, poll by poll, exactly what `lmpStages` says. -/
+theorem lmp_exact (N : Nat) (hN : 1 ≤ N) (frames : List LmpF) (hwf : ∀ f ∈ frames, f.WF N)
+    (hntb : ∀ f ∈ frames, f.slack = 1) (cuts : List Nat) :
+    pollAll (lmpReader .repaired) (lmpContent frames) cuts 0
+      = .ok (lmpStages (lmpLens frames) (lmpDecoded N frames) cuts 0 false) :=
+  lmp_exact_trailing_partial N hN frames hwf cuts (fun c _ => tbFree_of_slack_one frames hntb c)
 
 instance : DecidableEq LFrame := inferInstanceAs (DecidableEq (List (List (List Char)) × List (List (List Char))))
 
 /-- non-vacuity, incl. the late-newline lag: cut 41 = everything but the final newline of frame 1 — the
     frame is returned; the next poll only skips the newline; the poll after that returns frame 2 -/
 example : (1 ≤ 1) ∧ (∀ f ∈ wLmpFrames, f.WF 1) ∧
-    pollAll lmpReader (lmpContent wLmpFrames) [1, 7, 12, 20, 30, 40, 41, 94, 94, 94] 0
+    pollAll (lmpReader .repaired) (lmpContent wLmpFrames) [1, 7, 12, 20, 30, 40, 41, 94, 94, 94] 0
       = .ok [[], [], [], [], [], [], [wL1.decode 1], [], [wL2.decode 1], []] := by
   refine ⟨by decide, wLmp_wf, by decide⟩
 
@@ -440,17 +460,19 @@ theorem lmpStages_complete {F : Type} (lens : List Nat) (dec : List F)
 
 example : [3, 44, 44].Pairwise (· ≤ ·) ∧ sumLens [44] ≤ 44 := by decide
 
-/-- SAFETY, NO EXCEPTION and COMPLETENESS of `lammpstrj_reader` in one statement about the reader itself -/
-theorem lmp_safety_complete (N : Nat) (hN : 1 ≤ N) (frames : List LmpF) (hwf : ∀ f ∈ frames, f.WF N)
-    (cuts : List Nat) (hs : cuts.Pairwise (· ≤ ·)) :
-    ∃ stages, pollAll lmpReader (lmpContent frames) cuts 0 = .ok stages
+/-- SAFETY, NO EXCEPTION and COMPLETENESS of `lammpstrj_reader` (code as it is now) for trajectories with any
+    white space behind the trailing ids, under the cut guard of `lmp_exact_trailing_partial` -/
+theorem lmp_safety_complete_trailing_partial (N : Nat) (hN : 1 ≤ N) (frames : List LmpF)
+    (hwf : ∀ f ∈ frames, f.WF N) (cuts : List Nat) (hs : cuts.Pairwise (· ≤ ·))
+    (hfree : ∀ c ∈ cuts, tbFree frames c) :
+    ∃ stages, pollAll (lmpReader .repaired) (lmpContent frames) cuts 0 = .ok stages
       ∧ stages.length = cuts.length
       ∧ (∀ k (hk : k < cuts.length), ∃ d,
           (stages.take (k + 1)).flatten = (lmpDecoded N frames).take d ∧ d ≤ frames.length
           ∧ sumLens ((lmpLens frames).take d) ≤ cuts[k] + 1)
       ∧ (∀ pre T, cuts = pre ++ [T, T] → (lmpContent frames).length ≤ T →
           stages.flatten = lmpDecoded N frames) := by
-  refine ⟨_, lmp_exact N hN frames hwf cuts, lmpStages_length _ _ _ _ _, ?_, ?_⟩
+  refine ⟨_, lmp_exact_trailing_partial N hN frames hwf cuts hfree, lmpStages_length _ _ _ _ _, ?_, ?_⟩
   · intro k hk
     obtain ⟨d, h1, h2, h3⟩ := lmpStages_safety (lmpLens frames) (lmpDecoded N frames) cuts hs k hk
     exact ⟨d, h1, by simpa [lmpLens] using h2, h3⟩
@@ -459,6 +481,18 @@ theorem lmp_safety_complete (N : Nat) (hN : 1 ≤ N) (frames : List LmpF) (hwf :
     apply lmpStages_complete _ _ (by simp [lmpDecoded, lmpLens]) pre T hs
     rw [lmpContent, flatten_lenc_length] at hT
     exact hT
+
+/-- SAFETY, NO EXCEPTION and COMPLETENESS of `lammpstrj_reader` in one statement about the reader itself -/
+theorem lmp_safety_complete (N : Nat) (hN : 1 ≤ N) (frames : List LmpF) (hwf : ∀ f ∈ frames, f.WF N)
+    (hntb : ∀ f ∈ frames, f.slack = 1) (cuts : List Nat) (hs : cuts.Pairwise (· ≤ ·)) :
+    ∃ stages, pollAll (lmpReader .repaired) (lmpContent frames) cuts 0 = .ok stages
+      ∧ stages.length = cuts.length
+      ∧ (∀ k (hk : k < cuts.length), ∃ d,
+          (stages.take (k + 1)).flatten = (lmpDecoded N frames).take d ∧ d ≤ frames.length
+          ∧ sumLens ((lmpLens frames).take d) ≤ cuts[k] + 1)
+      ∧ (∀ pre T, cuts = pre ++ [T, T] → (lmpContent frames).length ≤ T →
+          stages.flatten = lmpDecoded N frames) :=
+  lmp_safety_complete_trailing_partial N hN frames hwf cuts hs (fun c _ => tbFree_of_slack_one frames hntb c)
 
 example : (1 ≤ 1) ∧ (∀ f ∈ wLmpFrames, f.WF 1) ∧ [41, 60, 94, 94].Pairwise (· ≤ ·)
     ∧ [41, 60, 94, 94] = [41, 60] ++ [94, 94] ∧ (lmpContent wLmpFrames).length ≤ 94 := by
@@ -539,8 +573,8 @@ and `previous_position` after every poll. -/
     at `current_position` — `previous_position` never influences a poll. -/
 theorem rp_object_is_function (v : Variant) (content : List Char) (o : RP) :
     objProj (xyzReaderO v content o) = xyzReader v content o.cur
-    ∧ objProj (lmpReaderO content o) = lmpReader content o.cur :=
-  ⟨xyzReaderO_proj v content o, lmpReaderO_proj content o⟩
+    ∧ objProj (lmpReaderO v content o) = lmpReader v content o.cur :=
+  ⟨xyzReaderO_proj v content o, lmpReaderO_proj v content o⟩
 
 example : xyzReaderO .repaired (xyzContent witness) ⟨0, 7⟩ = .ok ([wF1.decode, wF2.decode], ⟨88, 43⟩)
     ∧ xyzReader .repaired (xyzContent witness) 0 = .ok ([wF1.decode, wF2.decode], 88) := by decide
@@ -549,9 +583,9 @@ example : xyzReaderO .repaired (xyzContent witness) ⟨0, 7⟩ = .ok ([wF1.decod
     their consequences are theorems about the object the driver runs -/
 theorem rp_eq_pollAll (v : Variant) (content : List Char) (cuts : List Nat) :
     stagesFrames (rpRun (xyzReaderO v) (visible content (cuts.map some)) rpInit) = pollAll (xyzReader v) content cuts 0
-    ∧ stagesFrames (rpRun lmpReaderO (visible content (cuts.map some)) rpInit) = pollAll lmpReader content cuts 0 :=
+    ∧ stagesFrames (rpRun (lmpReaderO v) (visible content (cuts.map some)) rpInit) = pollAll (lmpReader v) content cuts 0 :=
   ⟨rpRun_eq_pollAll _ _ (xyzReaderO_proj v) content cuts rpInit,
-   rpRun_eq_pollAll _ _ lmpReaderO_proj content cuts rpInit⟩
+   rpRun_eq_pollAll _ _ (lmpReaderO_proj v) content cuts rpInit⟩
 
 example : stagesFrames (rpRun (xyzReaderO .repaired) (visible (xyzContent witness) ([37, 43, 88].map some)) rpInit)
     = .ok [[], [wF1.decode], [wF2.decode]] := by decide
@@ -575,17 +609,26 @@ example : (∀ f ∈ witness, f.WF 2) ∧
   refine ⟨witness_wf, ?_⟩
   decide
 
+/-- **LAMMPS, positions, any white space behind the trailing ids, guarded** (see `lmp_exact_trailing_partial`) -/
+theorem rp_lmp_exact_pos_trailing_partial (N : Nat) (hN : 1 ≤ N) (frames : List LmpF)
+    (hwf : ∀ f ∈ frames, f.WF N) (evs : List (Option Nat)) (hfree : ∀ e ∈ evs, tbFree frames (visBytes e)) :
+    stagesPos (rpRun (lmpReaderO .repaired) (visible (lmpContent frames) evs) rpInit)
+      = .ok (lmpStagesPos (lmpLens frames) (lmpDecoded N frames) evs 0 false) := by
+  have := lmp_rpRun_pos .repaired N hN frames hwf evs
+    (fun e he d hd => tbFree_drop N hN frames hwf (visBytes e) (hfree e he) d hd)
+    0 false (Nat.zero_le _) (by intro h; cases h) 0
+  simpa [sumLens, lmpContent, lmpLens, lmpDecoded, rpInit] using this
+
 /-- **LAMMPS, the same with the one-poll lag**: `current_position` is the end of the last frame returned, minus
     one while that frame's final newline has not been consumed -/
 theorem rp_lmp_exact_pos (N : Nat) (hN : 1 ≤ N) (frames : List LmpF) (hwf : ∀ f ∈ frames, f.WF N)
-    (evs : List (Option Nat)) :
-    stagesPos (rpRun lmpReaderO (visible (lmpContent frames) evs) rpInit)
-      = .ok (lmpStagesPos (lmpLens frames) (lmpDecoded N frames) evs 0 false) := by
-  have := lmp_rpRun_pos N hN frames hwf evs 0 false (Nat.zero_le _) (by intro h; cases h) 0
-  simpa [sumLens, lmpContent, lmpLens, lmpDecoded, rpInit] using this
+    (hntb : ∀ f ∈ frames, f.slack = 1) (evs : List (Option Nat)) :
+    stagesPos (rpRun (lmpReaderO .repaired) (visible (lmpContent frames) evs) rpInit)
+      = .ok (lmpStagesPos (lmpLens frames) (lmpDecoded N frames) evs 0 false) :=
+  rp_lmp_exact_pos_trailing_partial N hN frames hwf evs (fun e _ => tbFree_of_slack_one frames hntb _)
 
 example : (∀ f ∈ wLmpFrames, f.WF 1) ∧
-    stagesPos (rpRun lmpReaderO (visible (lmpContent wLmpFrames) [none, some 41, none, some 41, some 94, some 94]) rpInit)
+    stagesPos (rpRun (lmpReaderO .repaired) (visible (lmpContent wLmpFrames) [none, some 41, none, some 41, some 94, some 94]) rpInit)
       = .ok [([], 0), ([wL1.decode 1], 41), ([], 41), ([], 41), ([], 42), ([wL2.decode 1], 94)] :=
   ⟨wLmp_wf, by decide⟩
 
@@ -626,22 +669,26 @@ theorem rp_xyz_safety_complete (N : Nat) (hN : 1 ≤ N) (frames : List XyzF) (hw
 
 example : ([none, some 37, some 37, some 88].map visBytes).Pairwise (· ≤ ·) := by decide
 
-/-- **the same for the LAMMPS reader object** (with its one-poll lag, as in `lmp_safety_complete`) -/
+/-- **the same for the LAMMPS reader object** (with its one-poll lag, as in `lmp_safety_complete`); any white space
+    behind the trailing ids is allowed, under the cut guard `tbFree` of `lmp_exact_trailing_partial` — which holds
+    for every schedule when the frames end right behind their last trailing id (`tbFree_of_slack_one`) -/
 theorem rp_lmp_safety_complete (N : Nat) (hN : 1 ≤ N) (frames : List LmpF) (hwf : ∀ f ∈ frames, f.WF N)
-    (evs : List (Option Nat)) (hs : (evs.map visBytes).Pairwise (· ≤ ·)) :
-    ∃ stages, rpRun lmpReaderO (visible (lmpContent frames) evs) rpInit = .ok stages
+    (evs : List (Option Nat)) (hs : (evs.map visBytes).Pairwise (· ≤ ·))
+    (hfree : ∀ e ∈ evs, tbFree frames (visBytes e)) :
+    ∃ stages, rpRun (lmpReaderO .repaired) (visible (lmpContent frames) evs) rpInit = .ok stages
       ∧ stages.length = evs.length
       ∧ (∀ k (hk : k < (evs.map visBytes).length), ∃ d,
           ((stages.map Prod.fst).take (k + 1)).flatten = (lmpDecoded N frames).take d ∧ d ≤ frames.length
           ∧ sumLens ((lmpLens frames).take d) ≤ (evs.map visBytes)[k] + 1)
       ∧ (∀ pre T, evs.map visBytes = pre ++ [T, T] → (lmpContent frames).length ≤ T →
           (stages.map Prod.fst).flatten = lmpDecoded N frames) := by
-  have hab := rpRun_absent_as_empty lmpReaderO lmpReaderO_empty (lmpContent frames) evs rpInit
+  have hab := rpRun_absent_as_empty (lmpReaderO .repaired) (lmpReaderO_empty .repaired) (lmpContent frames) evs rpInit
   have hpa := (rp_eq_pollAll .repaired (lmpContent frames) (evs.map visBytes)).2
   rw [← hab] at hpa
-  obtain ⟨st0, h0, h1, h2, h3⟩ := lmp_safety_complete N hN frames hwf (evs.map visBytes) hs
+  obtain ⟨st0, h0, h1, h2, h3⟩ := lmp_safety_complete_trailing_partial N hN frames hwf (evs.map visBytes) hs
+    (by intro c hc; obtain ⟨e, he, rfl⟩ := List.mem_map.mp hc; exact hfree e he)
   rw [h0] at hpa
-  cases hr : rpRun lmpReaderO (visible (lmpContent frames) evs) rpInit with
+  cases hr : rpRun (lmpReaderO .repaired) (visible (lmpContent frames) evs) rpInit with
   | error e => rw [hr] at hpa; simp [stagesFrames] at hpa
   | ok stages =>
     rw [hr] at hpa
@@ -663,12 +710,12 @@ example : ([none, some 41, some 94, some 94].map visBytes) = [0, 41] ++ [94, 94]
     file contains (both readers, both variants). -/
 theorem rp_poll_short_file (v : Variant) (o : RP) (file : Option (List Char))
     (h : ∀ content ∈ file, content.length ≤ o.cur) :
-    rpPoll (xyzReaderO v) o file = .ok ([], o) ∧ rpPoll lmpReaderO o file = .ok ([], o) := by
+    rpPoll (xyzReaderO v) o file = .ok ([], o) ∧ rpPoll (lmpReaderO v) o file = .ok ([], o) := by
   cases file with
   | none => exact ⟨rfl, rfl⟩
   | some content =>
     have hc := h content rfl
-    exact ⟨xyzReaderO_short v content o hc, lmpReaderO_short content o hc⟩
+    exact ⟨xyzReaderO_short v content o hc, lmpReaderO_short v content o hc⟩
 
 example : rpPoll (xyzReaderO .repaired) ⟨43, 0⟩ (some ((xyzContent witness).take 20)) = .ok ([], ⟨43, 0⟩) := by decide
 
@@ -923,25 +970,113 @@ example : (gGen (gFile [wG1, wG2]) [100, 276]).filterMap gYield = [wG1.blocks, w
     ∧ (wG2.blocks.map (fun b => (b.1, b.2.length))) = [(0, 36), (3, 12), (4, 12)] := by
   refine ⟨by decide, by decide⟩
 
-/-! ## LAMMPS atom lines that end in a blank (what `dump custom` writes): the late-newline skip misses
+/-! ## LAMMPS atom lines that end in a blank (what `dump custom` writes): the late-line-end skip
 
-`LmpF.WF` asks for no blank behind the trailing id.  Real LAMMPS dumps end every atom line with `"id \n"`.  Then a
-poll that sees a frame up to its last id — but not the `" \n"` behind it — accepts the frame (nine tokens, first =
-last) and leaves `current_position` in front of `" \n"`; the next poll starts on the line `" \n"`, which the skip
-`if i == 0 and line == "\n"` does not match, so every line number is off by one and `int("ITEM:")` raises. -/
+Real LAMMPS dumps end every atom line with `"id \n"`.  A poll that sees a frame up to its last id — but not the
+`" \n"` behind it — accepts the frame (nine tokens, first = last) and leaves `current_position` in front of `" \n"`;
+the next poll starts on the line `" \n"`.  The code as it was found (`asIs`) skipped only a bare `"\n"` there, so
+every line number was off by one and `int("ITEM:")` raised (finding C13:lammps:trailing-blank-late-newline,
+repaired by /repo dfb19e7); the code as it is now (`repaired`) skips a white-space-only, newline-terminated
+first line. -/
 
 /-- "T\n0\nN\n1\nB\n0 1\n0 1\n0 1\nA\n1 1 1 2 3 4 5 6 1 \n" (43 bytes): `wL1` with a blank behind the trailing id -/
 def wLT : LmpF :=
   { wL1 with atoms := [['1', ' ', '1', ' ', '1', ' ', '2', ' ', '3', ' ', '4', ' ', '5', ' ', '6', ' ', '1', ' ', '\n']] }
 
-/-- **NO EXCEPTION fails for `lammpstrj_reader` on trailing-blank atom lines** (candidate finding, open): with 41
-    of 86 bytes visible (frame 1 up to its last id) the frame is returned; the next poll, on the complete file,
-    raises `ValueError`.  Cuts one byte earlier or later are fine. -/
+/-- **RECORD: NO EXCEPTION failed for `lammpstrj_reader` as it was before fix dfb19e7** on trailing-blank atom
+    lines: with 41 of 86 bytes visible (frame 1 up to its last id) the frame is returned; the next poll, on the
+    complete file, raises `ValueError`.  Cuts one byte earlier or later were fine. -/
 theorem lmp_trailing_blank_counterexample :
-    pollAll lmpReader (lmpContent [wLT, wLT]) [41] 0 = .ok [[wLT.decode 1]]
-    ∧ pollAll lmpReader (lmpContent [wLT, wLT]) [41, 86] 0 = .error .value
-    ∧ pollAll lmpReader (lmpContent [wLT, wLT]) [40, 86, 86] 0 = .ok [[], [wLT.decode 1, wLT.decode 1], []]
-    ∧ pollAll lmpReader (lmpContent [wLT, wLT]) [42, 86, 86] 0 = .ok [[wLT.decode 1], [], [wLT.decode 1]] := by
+    pollAll (lmpReader .asIs) (lmpContent [wLT, wLT]) [41] 0 = .ok [[wLT.decode 1]]
+    ∧ pollAll (lmpReader .asIs) (lmpContent [wLT, wLT]) [41, 86] 0 = .error .value
+    ∧ pollAll (lmpReader .asIs) (lmpContent [wLT, wLT]) [40, 86, 86] 0 = .ok [[], [wLT.decode 1, wLT.decode 1], []]
+    ∧ pollAll (lmpReader .asIs) (lmpContent [wLT, wLT]) [42, 86, 86] 0 = .ok [[wLT.decode 1], [], [wLT.decode 1]] := by
   refine ⟨by decide, by decide, by decide, by decide⟩
+
+/-- **the same witness on the code as it is now**: the frame is returned at 41 bytes; the poll on the complete
+    file skips the late `" \n"` and returns nothing (the one-poll lag); the next poll returns frame 2.  Also when
+    the blank and the newline arrive separately (42: only the blank — nothing happens, the position stays). -/
+theorem lmp_trailing_blank_repaired :
+    pollAll (lmpReader .repaired) (lmpContent [wLT, wLT]) [41, 86, 86] 0 = .ok [[wLT.decode 1], [], [wLT.decode 1]]
+    ∧ pollAll (lmpReader .repaired) (lmpContent [wLT, wLT]) [41, 42, 43, 86, 86] 0
+        = .ok [[wLT.decode 1], [], [], [wLT.decode 1], []]
+    ∧ pollAll (lmpReader .repaired) (lmpContent [wLT, wLT]) [41, 42, 86, 86] 0
+        = .ok [[wLT.decode 1], [], [], [wLT.decode 1]]
+    ∧ pollAll (lmpReader .repaired) (lmpContent [wLT, wLT]) [40, 86, 86] 0 = .ok [[], [wLT.decode 1, wLT.decode 1], []] := by
+  refine ⟨by decide, by decide, by decide, by decide⟩
+
+theorem wLT_wf : wLT.WF 1 where
+  l0 := isLine_of _ ['T'] rfl (by decide)
+  l0nb := ⟨'T', by decide, by decide⟩
+  l1 := isLine_of _ ['0'] rfl (by decide)
+  l2 := isLine_of _ ['N'] rfl (by decide)
+  l3 := isLine_of _ ['1'] rfl (by decide)
+  l3tok := ⟨['1'], [], by decide, by decide⟩
+  l4 := isLine_of _ ['B'] rfl (by decide)
+  b0 := ⟨isLine_of _ ['0', ' ', '1'] rfl (by decide), by decide, by decide⟩
+  b1 := ⟨isLine_of _ ['0', ' ', '1'] rfl (by decide), by decide, by decide⟩
+  b2 := ⟨isLine_of _ ['0', ' ', '1'] rfl (by decide), by decide, by decide⟩
+  l8 := isLine_of _ ['A'] rfl (by decide)
+  natoms := rfl
+  atoms := by
+    intro a ha
+    simp only [wLT, wL1, List.mem_cons, List.not_mem_nil, or_false] at ha
+    subst ha
+    exact ⟨⟨['1', ' ', '1', ' ', '1', ' ', '2', ' ', '3', ' ', '4', ' ', '5', ' ', '6', ' '], '1', [' '], rfl, by decide,
+      by decide, by intro x hx; simp only [List.mem_singleton] at hx; subst hx; decide⟩,
+      ⟨by decide, by decide, ⟨1, 0, by decide, by decide⟩, by decide⟩⟩
+
+theorem wLTs_wf : ∀ f ∈ [wLT, wLT], f.WF 1 := by
+  intro f hf
+  simp only [List.mem_cons, List.not_mem_nil, or_false] at hf
+  rcases hf with rfl | rfl <;> exact wLT_wf
+
+/-- non-vacuity of the guarded theorems on the trailing-blank witness (`slack = 2`): the cuts 40, 42, 43, 84, 85,
+    86 are free, 41 (= 43 − 2: frame 1 up to its last id) is the one cut of frame 1 that is not -/
+example : wLT.slack = 2 ∧ (∀ f ∈ [wLT, wLT], f.WF 1) ∧ (∀ c ∈ [40, 42, 43, 85, 86, 86], tbFree [wLT, wLT] c)
+    ∧ ¬ tbFree [wLT, wLT] 41
+    ∧ pollAll (lmpReader .repaired) (lmpContent [wLT, wLT]) [40, 42, 43, 85, 86, 86] 0
+        = .ok [[], [wLT.decode 1], [], [wLT.decode 1], [], []] := by
+  refine ⟨by decide, wLTs_wf, ?_, ?_, by decide⟩
+  · intro c hc
+    simp only [List.mem_cons, List.not_mem_nil, or_false] at hc
+    rcases hc with rfl | rfl | rfl | rfl | rfl | rfl <;> simp only [tbFree] <;> decide
+  · simp only [tbFree]; decide
+
+/-- frames that end right behind their last trailing id: the hypothesis of `lmp_exact` etc. -/
+example : ∀ f ∈ wLmpFrames, f.slack = 1 := by
+  intro f hf
+  simp only [wLmpFrames, List.mem_cons, List.not_mem_nil, or_false] at hf
+  rcases hf with rfl | rfl <;> decide
+
+/-- **one poll on a partly visible frame, any white space behind the trailing ids, no guard** (code as it is now
+    and as it was): from a frame boundary, with the next frame `f` visible up to byte `c`, the reader returns `f`
+    iff at most `f.slack` bytes of it are missing — the white space and the newline behind the trailing id of
+    its last atom line, never a byte of a value — and then stands at `c`; otherwise it returns nothing and does
+    not move.  No exception.  (`tbFree` excludes exactly the cuts with `1 <` missing `≤ slack`.) -/
+theorem lmp_trailing_frame_poll (v : Variant) (N : Nat) (hN : 1 ≤ N) (done : List LmpF) (f : LmpF)
+    (rest : List LmpF) (hf : f.WF N) (c : Nat) (h1 : (lmpContent done).length ≤ c)
+    (h2 : c < (lmpContent done).length + f.len) :
+    lmpReader v ((lmpContent (done ++ f :: rest)).take c) (lmpContent done).length
+      = .ok (if f.enc.length ≤ (c - (lmpContent done).length) + f.slack
+             then ([f.decode N], c) else ([], (lmpContent done).length)) :=
+  lmpReader_poll_partial N hN done f rest hf c h1 h2
+
+example : lmpReader .repaired ((lmpContent ([wLT] ++ wLT :: [])).take 84) (lmpContent [wLT]).length
+    = .ok ([wLT.decode 1], 84) := by decide
+
+/-- **the late line end is skipped (code as it is now), for all inputs**: a poll that starts in front of any
+    white space followed by a newline — what is left of a frame that was returned early — returns nothing and
+    moves behind the newline as soon as the newline is visible; before that it returns nothing and stays.
+    Never an exception.  With the old rule (`line == "\n"`) this failed: `lmp_trailing_blank_counterexample`. -/
+theorem lmp_late_line_end_skipped (pre ws rest : List Char) (hws : ∀ x ∈ ws, isBlank x = true ∧ x ≠ '\n') (c : Nat) :
+    lmpReader .repaired ((pre ++ (ws ++ '\n' :: rest)).take c) pre.length
+      = .ok ([], if pre.length + ws.length + 1 ≤ c then pre.length + ws.length + 1 else pre.length) :=
+  lmpReader_late_line_end pre ws rest hws c
+
+example : (∀ x ∈ [' ', '\t'], isBlank x = true ∧ x ≠ '\n')
+    ∧ lmpReader .repaired ((['a', 'b'] ++ ([' ', '\t'] ++ '\n' :: ['T', '\n'])).take 5) 2 = .ok ([], 5)
+    ∧ lmpReader .repaired ((['a', 'b'] ++ ([' ', '\t'] ++ '\n' :: ['T', '\n'])).take 4) 2 = .ok ([], 2) := by
+  refine ⟨by decide, by decide, by decide⟩
 
 end Infretis.C13
